@@ -106,9 +106,9 @@ func (s *streamHTTP) writeMsg(c Codec, b []byte, contentType string) (int, error
 func (s *streamHTTP) SendMsg(m interface{}) error {
 	reply := m.(proto.Message)
 
-	cur := reply.ProtoReflect()
-	for _, fd := range s.method.resp {
-		cur = cur.Mutable(fd).Message()
+	cur, err := mutablePath(reply.ProtoReflect(), s.method.resp)
+	if err != nil {
+		return err
 	}
 	msg := cur.Interface()
 
@@ -214,9 +214,9 @@ func (s *streamHTTP) decodeRequestArgs(args proto.Message) (int, error) {
 		}
 	}()
 
-	cur := args.ProtoReflect()
-	for _, fd := range s.method.body {
-		cur = cur.Mutable(fd).Message()
+	cur, err := mutablePath(args.ProtoReflect(), s.method.body)
+	if err != nil {
+		return -1, err
 	}
 	msg := cur.Interface()
 
@@ -563,8 +563,9 @@ func AsHTTPBodyReader(stream grpc.ServerStream, msg proto.Message) (body io.Read
 	if name, want := cur.Descriptor().FullName(), s.method.desc.Input().FullName(); name != want {
 		return nil, fmt.Errorf("expected %s got %s", want, name)
 	}
-	for _, fd := range s.method.body {
-		cur = cur.Mutable(fd).Message()
+	cur, err = mutablePath(cur, s.method.body)
+	if err != nil {
+		return nil, err
 	}
 
 	if typ := cur.Descriptor().FullName(); typ != "google.api.HttpBody" {
@@ -603,8 +604,9 @@ func AsHTTPBodyWriter(stream grpc.ServerStream, msg proto.Message) (body io.Writ
 	if name, want := cur.Descriptor().FullName(), s.method.desc.Output().FullName(); name != want {
 		return nil, fmt.Errorf("expected %s got %s", want, name)
 	}
-	for _, fd := range s.method.resp {
-		cur = cur.Mutable(fd).Message()
+	cur, err = mutablePath(cur, s.method.resp)
+	if err != nil {
+		return nil, err
 	}
 
 	if typ := cur.Descriptor().FullName(); typ != "google.api.HttpBody" {
